@@ -62,8 +62,7 @@ theorem dropCopy_isOpen (b : Update.Client) : (Update.dropCopy b).isOpen = b.isO
 theorem setEncodings0_isOpen (s : Update.Screen) (b : Update.Client) (cr cs : Bool) :
     (Update.setEncodings0 s b cr cs).isOpen = b.isOpen := by
   unfold Update.setEncodings0
-  simp only
-  split <;> rfl
+  rfl
 
 @[simp] theorem setEncodings_isOpen (s : Screen) (c : Client) (cr cs nf ext : Bool) :
     (setEncodings s c cr cs nf ext).base.isOpen = c.base.isOpen := by
@@ -142,5 +141,16 @@ theorem mark_admin (c : Client) (r : Region) :
 theorem copy_admin (s : Update.Screen) (c : Client) (r : Region) (dx dy : Int) :
     admin { c with base := scheduleCopy s c.base r dx dy } = admin c := by
   simp [admin, scheduleCopy_isOpen]
+
+/-- closing a connection changes nothing but `isOpen` -/
+theorem closeClient_admin (c : Client) : admin (closeClient c) = { admin c with isOpen := false } := rfl
+
+theorem updateClientFail_admin (s : Screen) (c : Client) :
+    admin (updateClientFail s c) = admin c ∨
+    admin (updateClientFail s c) = { admin c with isOpen := false } := by
+  unfold updateClientFail
+  split
+  · exact Or.inl (updateClient_admin s c)
+  · right; rw [closeClient_admin, updateClient_admin]
 
 end VncModel.Resize
